@@ -228,6 +228,21 @@ func dethunkMapDepthFirst(m map[string]interface{}) {
 	}
 }
 
+// dethunkValueDepthFirst forces a single completed value (and everything
+// nested in it) depth-first.
+func dethunkValueDepthFirst(v interface{}) interface{} {
+	if f, ok := v.(func() interface{}); ok {
+		v = f()
+	}
+	switch val := v.(type) {
+	case map[string]interface{}:
+		dethunkMapDepthFirst(val)
+	case []interface{}:
+		dethunkListDepthFirst(val)
+	}
+	return v
+}
+
 func dethunkListDepthFirst(list []interface{}) {
 	for i, v := range list {
 		if f, ok := v.(func() interface{}); ok {
